@@ -6,7 +6,7 @@ CONSTANTS
   SameIP = FALSE
   AllowDupIP = TRUE
   MaxInbound = 1
-  MaxInst = 3
+  MaxInst = 2
   MaxIncoming = 2
   MaxDials = 1
   MaxStops = 1
